@@ -46,7 +46,7 @@ func runC08(c *Ctx) {
 	if lockOpen == nil {
 		return
 	}
-	lockName := argsOf(lockOpen)[0]
+	lockName := deref(argsOf(lockOpen)[0])
 	bo, _ := lockName.(*ssa.BinOp)
 	var newname ssa.Value
 	if bo != nil {
@@ -67,8 +67,21 @@ func runC08(c *Ctx) {
 	// deferred removal: a `defer os.Remove(lockname)` dominated by success, and no return reachable from success without passing it
 	var dfr *ssa.Defer
 	for _, in := range instrsOf(fn) {
-		if d, ok := in.(*ssa.Defer); ok && calleeName(&d.Call) == "os.Remove" && describe(argsOf(d)[0]) == ld {
+		d, ok := in.(*ssa.Defer)
+		if !ok {
+			continue
+		}
+		if calleeName(&d.Call) == "os.Remove" && describe(argsOf(d)[0]) == ld {
 			dfr = d
+			continue
+		}
+		// `defer unlock()` where unlock is, on this path, a function literal that removes the lock
+		if mc, ok := strip(refine(d.Call.Value, factsAt(d))).(*ssa.MakeClosure); ok {
+			for _, cs := range callsIn(mc.Fn.(*ssa.Function), "os.Remove") {
+				if describe(argsOf(cs)[0]) == ld {
+					dfr = d
+				}
+			}
 		}
 	}
 	okDefer := dfr != nil && hasFact(factsAt(dfr), errNilOf(lockOpen))
